@@ -275,7 +275,11 @@ func genJournalCase(r *Rng, tier string, odd bool) map[string]any {
 		a, b = b, a
 	}
 	windows = append(windows, []any{a, b}, []any{a + 1, b - 1 + int64(r.Intn(2))})
-	return map[string]any{"kind": "journal", "feeds": feeds, "windows": windows}
+	c := map[string]any{"kind": "journal", "feeds": feeds, "windows": windows}
+	if r.P(1, 5) {
+		c["exportEdit"] = 1 + r.Intn(5) // C20 only: the exported journal is the built one edited by hand
+	}
+	return c
 }
 
 func minInt(a, b int) int {
@@ -294,6 +298,7 @@ type journalRun struct {
 	stCsv    string
 	exportOK bool
 	mutated  bool
+	exported *journal.Journal // the journal ExportToCsv was given (the built one, possibly edited by hand: see exportEdit)
 }
 
 func runJournalImpl(in map[string]any) journalRun {
@@ -320,6 +325,10 @@ func runJournalImpl(in map[string]any) journalRun {
 		ww := windows[0].([]any)
 		full = buildJournalImpl(nil, toI64(ww[0]), toI64(ww[1]))
 	}
+	// "all journals": a journal need not come out of BuildJournal. exportEdit edits a copy of the built one by hand
+	// (empty UIDs and ids, tracks pointing at the empty string, negative and very large counters) before the export.
+	full = editedForExport(full, gi(in, "exportEdit"))
+	jr.exported = full
 	before := mustJSON(canonJournal(full))
 	exp, err := full.ExportToCsv()
 	if err == nil {
@@ -329,6 +338,48 @@ func runJournalImpl(in map[string]any) journalRun {
 	}
 	jr.mutated = before != mustJSON(canonJournal(full))
 	return jr
+}
+
+// editedForExport returns the journal itself for edit 0 and an edited deep copy otherwise.
+func editedForExport(j *journal.Journal, edit int64) *journal.Journal {
+	if edit == 0 || j == nil {
+		return j
+	}
+	c := &journal.Journal{}
+	for _, t := range j.Trips {
+		t2 := t
+		t2.StopTimes = append([]journal.StopTime(nil), t.StopTimes...)
+		c.Trips = append(c.Trips, t2)
+	}
+	empty := ""
+	for i := range c.Trips {
+		t := &c.Trips[i]
+		switch edit {
+		case 1: // the first trip has an empty UID
+			if i == 0 {
+				t.TripUID = ""
+			}
+		case 2: // every identifier of every trip is empty
+			t.TripUID, t.TripID, t.RouteID, t.VehicleID = "", "", "", ""
+			for k := range t.StopTimes {
+				t.StopTimes[k].StopID = ""
+			}
+		case 3: // every other trip has an empty UID
+			if i%2 == 1 {
+				t.TripUID = ""
+			}
+		case 4: // counters no builder produces
+			t.NumUpdates, t.NumScheduleChanges, t.NumScheduleRewrites = -1, 1<<40, -(1 << 31)
+		case 5: // tracks present but empty, empty stop ids
+			for k := range t.StopTimes {
+				t.StopTimes[k].Track = &empty
+				if k%2 == 0 {
+					t.StopTimes[k].StopID = ""
+				}
+			}
+		}
+	}
+	return c
 }
 
 func journalProjection(jr journalRun) map[string]any {
@@ -745,6 +796,9 @@ func oracleC20(in map[string]any, jr journalRun) ([]Viol, []string) {
 		return nil, []string{"empty-history"}
 	}
 	j := jr.prefixes[len(jr.prefixes)-1][0]
+	if jr.exported != nil {
+		j = jr.exported
+	}
 	if !jr.exportOK {
 		return []Viol{{"c20-error", "ExportToCsv returned an error"}}, nil
 	}
@@ -892,7 +946,9 @@ func (p *journalProp) Prepare(in map[string]any) map[string]any {
 	}
 	jr := runJournalImpl(in)
 	var j []any
-	if n := len(jr.prefixes); n > 0 {
+	if jr.exported != nil {
+		j = canonJournal(jr.exported)
+	} else if n := len(jr.prefixes); n > 0 {
 		j = canonJournal(jr.prefixes[n-1][0])
 	} else {
 		j = []any{}
